@@ -1,10 +1,10 @@
 /-
   C13 — ARP spoofing is confined to hunted hosts and undone on StopHunt.
   Property theorems over ALL traces of the ARP hunt machine (Model/ArpHunt.lean); invariants and the
-  budget lemmas are in Lemmas/ArpHunt.lean.
+  run lemmas are in Lemmas/ArpHunt.lean.
 
   Wall-clock part ("within one cycle"): the 6 s ticker is the nondeterministic `wake` transition; the
-  theorems say "within the iteration the loop is in", the harness measures the period.
+  theorems say "at the loop's next check", the harness measures the period.
   Assumption: writes to the connection succeed (on a write error the loop returns without restoring).
 -/
 import PacketVerif.Lemmas.ArpHunt
@@ -13,130 +13,135 @@ open PV PV.Model.ArpHunt PV.Lemmas.ArpHunt
 
 /-! ### confinement -/
 
-/-- **Forged frames go only to hunted hosts.**  On every trace:
-    * a loop writes a forged announcement (`forge i` enabled) only to its own MAC, for which a StartHunt
-      was accepted;
-    * an immediate forged reply (`reply m` enabled) goes only to a MAC for which a StartHunt was accepted;
-    so a host that was never hunted never receives a forged ARP packet. -/
+/-- **Forged frames go only to hosts that are in the hunt list when the frame is written.**  On every
+    trace:
+    * a loop writes a forged announcement (`forge i` enabled) only to its own MAC, which is in the hunt
+      list at that moment (the handler is open), and for which a StartHunt was accepted;
+    * an immediate forged reply (`reply m` enabled) goes only to a MAC that is in the hunt list at that
+      moment;
+    so a host that is not hunted never receives a forged ARP packet. -/
 theorem forged_only_to_hunted (tr : List Event) (s : State) (os : List Out) (hr : run {} tr = some (s, os)) :
-    (∀ i s' o, step s (.forge i) = some (s', o) → o = .forged (s.loops i).mac ∧ (s.loops i).mac ∈ s.started) ∧
-    (∀ m s' o, step s (.reply m) = some (s', o) → o = .spoofReply m ∧ m ∈ s.started) := by
+    (∀ i s' o, step s (.forge i) = some (s', o) →
+      o = .forged (s.loops i).mac ∧ (s.loops i).mac ∈ s.hunt ∧ s.closed = false ∧ (s.loops i).mac ∈ s.started) ∧
+    (∀ m s' o, step s (.reply m) = some (s', o) → o = .spoofReply m ∧ m ∈ s.hunt ∧ m ∈ s.started) := by
   have hI := inv_run inv_init hr
   constructor
   · intro i s' o hs
     simp only [step] at hs
     split at hs
     · rename_i hc; cases hs
-      exact ⟨rfl, hI.started i (by rw [hc]; simp)⟩
+      obtain ⟨_, hm, hcl⟩ := hI.forgeOK i hc
+      exact ⟨rfl, hm, hcl, hI.huntStarted _ hm⟩
     · cases hs
   · intro m s' o hs
     simp only [step] at hs
     split at hs
-    · rename_i hm; cases hs; exact ⟨rfl, hI.repliesStarted m hm⟩
+    · rename_i hh; cases hs
+      have hm := hI.holderRx m hh
+      exact ⟨rfl, hm, hI.huntStarted m hm⟩
     · cases hs
 
-/-- the loop reaches its forging state only through its own check finding its MAC in the hunt list
-    followed by the gate finding the handler open: `gate true` is entered only by `check i` with
-    `mac ∈ hunt`, `forge` only by `gate i` from `gate true` with `closed = false` -/
+/-- the loop reaches its forging state only through its own check, which takes the mutex and finds
+    its MAC in the hunt list and the handler open -/
 theorem forge_entered_only_by_hunted_check (s s' : State) (e : Event) (o : Out) (i : Nat)
-    (hs : step s e = some (s', o)) :
-    ((s.loops i).pc ≠ .gate true → (s'.loops i).pc = .gate true → e = .check i ∧ (s.loops i).mac ∈ s.hunt) ∧
-    ((s.loops i).pc ≠ .forge → (s'.loops i).pc = .forge →
-        e = .gate i ∧ (s.loops i).pc = .gate true ∧ s.closed = false) := by
-  have frame : s'.loops i = s.loops i →
-      ((s.loops i).pc ≠ .gate true → (s'.loops i).pc = .gate true → e = .check i ∧ (s.loops i).mac ∈ s.hunt) ∧
-      ((s.loops i).pc ≠ .forge → (s'.loops i).pc = .forge →
-          e = .gate i ∧ (s.loops i).pc = .gate true ∧ s.closed = false) := by
-    intro h; rw [h]; exact ⟨fun a b => absurd b a, fun a b => absurd b a⟩
-  have other : ∀ j pc, j ≠ i → s' = setPc s j pc → s'.loops i = s.loops i := by
-    intro j pc hj he; subst he; exact setPc_other _ _ _ _ (fun h => hj h.symm)
+    (hs : step s e = some (s', o)) (h0 : (s.loops i).pc ≠ .forge) (h1 : (s'.loops i).pc = .forge) :
+    e = .check i ∧ (s.loops i).mac ∈ s.hunt ∧ s.closed = false ∧ s.holder = none ∧
+      s'.holder = some (.loop i) := by
+  have frame : s'.loops i = s.loops i → False := by intro h; rw [h] at h1; exact h0 h1
+  have other : ∀ j pc hd, j ≠ i → s' = { setPc s j pc with holder := hd } → False := by
+    intro j pc hd hj he; subst he; exact frame (setPc_other _ _ _ _ (fun h => hj h.symm))
   cases e with
-  | rxOther => simp only [step] at hs; cases hs; exact frame rfl
-  | rxProbe a b c d => simp only [step] at hs; split at hs <;> (cases hs; exact frame rfl)
-  | rxRequest _e a b => simp only [step] at hs; split at hs <;> (cases hs; exact frame rfl)
+  | rxOther => simp only [step] at hs; cases hs; exact (frame rfl).elim
+  | rxProbe a b c d => simp only [step] at hs; split at hs <;> (cases hs; exact (frame rfl).elim)
+  | rxRequest _e a b =>
+    simp only [step] at hs
+    split at hs
+    · split at hs <;> (cases hs; exact (frame rfl).elim)
+    · cases hs
   | reply a =>
     simp only [step] at hs
     split at hs
-    · cases hs; exact frame rfl
+    · cases hs; exact (frame rfl).elim
     · cases hs
-  | close => simp only [step] at hs; cases hs; exact frame rfl
-  | stopHunt m _ip => simp only [step] at hs; cases hs; exact frame rfl
+  | close =>
+    simp only [step] at hs
+    split at hs
+    · cases hs; exact (frame rfl).elim
+    · cases hs
+  | stopHunt m _ip =>
+    simp only [step] at hs
+    split at hs
+    · cases hs; exact (frame rfl).elim
+    · cases hs
   | startHunt m v =>
     simp only [step] at hs
     split at hs
-    · cases hs; exact frame rfl
+    · cases hs; exact (frame rfl).elim
     · split at hs
-      · cases hs; exact frame rfl
       · cases hs
-        by_cases hi : i = s.nloops
-        · subst hi; simp
-        · apply frame; simp only [updLoop_other _ _ _ _ hi]
+      · split at hs
+        · cases hs; exact (frame rfl).elim
+        · cases hs
+          by_cases hi : i = s.nloops
+          · subst hi; simp at h1
+          · exact (frame (by simp only [updLoop_other _ _ _ _ hi])).elim
   | check j =>
     simp only [step] at hs
     split at hs
-    · rename_i hc
-      cases hs
-      by_cases hji : j = i
-      · subst hji
-        rw [setPc_same]
-        refine ⟨fun _ h => ⟨rfl, ?_⟩, fun _ h => by cases h⟩
-        simpa using h
-      · exact frame (other j _ hji rfl)
-    · cases hs
-  | gate j =>
-    simp only [step] at hs
-    split at hs
-    · rename_i b hc
+    · rename_i hcf
       by_cases hji : j = i
       · subst hji
         split at hs
-        · cases hs; simp
-        · rename_i hcond
-          cases hs
-          rw [setPc_same]
-          refine ⟨fun _ h => (by cases h), fun _ _ => ⟨rfl, ?_, ?_⟩⟩
-          · cases b <;> simp_all
-          · cases hcl : s.closed <;> simp_all
-      · split at hs <;> (cases hs; exact frame (other j _ hji rfl))
-    · cases hs
-  | exitRead j =>
-    simp only [step] at hs
-    split at hs
-    · by_cases hji : j = i
-      · subst hji; split at hs <;> (cases hs; simp)
-      · split at hs <;> (cases hs; exact frame (other j _ hji rfl))
+        · cases hs; simp at h1
+        · rename_i hcl
+          split at hs
+          · rename_i hm
+            cases hs
+            exact ⟨rfl, hm, by simpa using hcl, hcf.2, rfl⟩
+          · cases hs
+            have : ((setPc s j Pc.restore).loops j).pc = .forge := h1
+            simp at this
+      · split at hs
+        · cases hs; exact (other j _ s.holder hji rfl).elim
+        · split at hs <;> (cases hs; exact (other j _ _ hji rfl).elim)
     · cases hs
   | restore j =>
     simp only [step] at hs
     split at hs
     · cases hs
       by_cases hji : j = i
-      · subst hji; simp
-      · exact frame (other j _ hji rfl)
+      · subst hji
+        have : ((setPc s j Pc.done).loops j).pc = .forge := h1
+        simp at this
+      · exact (other j _ _ hji rfl).elim
     · cases hs
   | forge j =>
     simp only [step] at hs
     split at hs
     · cases hs
       by_cases hji : j = i
-      · subst hji; simp
-      · exact frame (other j _ hji rfl)
+      · subst hji
+        have : ((setPc s j Pc.wait).loops j).pc = .forge := h1
+        simp at this
+      · exact (other j _ _ hji rfl).elim
     · cases hs
   | wake j =>
     simp only [step] at hs
     split at hs
     · cases hs
       by_cases hji : j = i
-      · subst hji; simp
-      · exact frame (other j _ hji rfl)
+      · subst hji; simp at h1
+      · exact (other j _ s.holder hji rfl).elim
     · cases hs
 
 /-- an immediate forged reply is decided exactly when the asking MAC is in the hunt list and asks for
-    the router -/
-theorem reply_decided_iff (s : State) (esrc smac : Bytes) (toRouter : Bool) :
+    the router; ProcessPacket then keeps the mutex until the reply is written -/
+theorem reply_decided_iff (s : State) (esrc smac : Bytes) (toRouter : Bool) (hf : s.holder = none) :
     step s (.rxRequest esrc smac toRouter) =
-      some (if smac ∈ s.hunt ∧ toRouter = true then { s with replies := smac :: s.replies } else s, .none) := by
-  simp only [step]; split <;> rfl
+      some (if smac ∈ s.hunt ∧ toRouter = true then { s with holder := some (.rx smac) } else s, .none) := by
+  by_cases hc : smac ∈ s.hunt ∧ toRouter = true
+  · simp [step, free, hf, hc]
+  · simp [step, free, hf, hc]
 
 /-- the immediate-reply decision is keyed on the ARP sender hardware address: the Ethernet source of
     the frame (a bridge relaying the request) plays no role – a hunted bridge relaying the request of
@@ -152,8 +157,9 @@ theorem stopHunt_keyed_on_mac (s : State) (mac ip1 ip2 : Bytes) :
   refine ⟨rfl, ?_⟩
   intro s' o hs m hm
   simp only [step] at hs
-  cases hs
-  exact List.mem_erase_of_ne hm
+  split at hs
+  · cases hs; exact List.mem_erase_of_ne hm
+  · cases hs
 
 /-- **Probe-reject rule**: a probe is answered with a reject reply iff the probing MAC holds an
     outstanding DHCP offer for a different address and the probed address lies in the home LAN; the
@@ -183,12 +189,16 @@ theorem startHunt_rejects_invalid (s : State) (mac : Bytes) :
 theorem startHunt_idempotent (s s1 : State) (mac : Bytes) (o1 : Out)
     (h1 : step s (.startHunt mac true) = some (s1, o1)) :
     step s1 (.startHunt mac true) = some (s1, .startOk) := by
-  have hm : mac ∈ s1.hunt := by
+  have hm : mac ∈ s1.hunt ∧ s1.holder = none := by
     simp only [step] at h1
     split at h1
     · simp_all
-    · split at h1 <;> (cases h1; simp_all)
-  simp [step, hm]
+    · split at h1
+      · cases h1
+      · rename_i hf
+        have hf' : s.holder = none := by simpa [free] using hf
+        split at h1 <;> (cases h1; simp_all)
+  simp [step, free, hm.1, hm.2]
 
 /-- the hunt list holds every MAC at most once on every trace -/
 theorem hunt_nodup (tr : List Event) (s : State) (os : List Out) (hr : run {} tr = some (s, os)) :
@@ -201,59 +211,167 @@ theorem stopHunt_removes (tr : List Event) (s s' : State) (os : List Out) (o : O
     (hs : step s (.stopHunt mac ip) = some (s', o)) : mac ∉ s'.hunt := by
   have hn := (inv_run inv_init hr).nodup
   simp only [step] at hs
-  cases hs
-  exact fun h => (List.Nodup.mem_erase_iff hn).1 h |>.1 rfl
+  split at hs
+  · cases hs
+    exact fun h => (List.Nodup.mem_erase_iff hn).1 h |>.1 rfl
+  · cases hs
 
 /-! ### StopHunt and Close -/
 
-/-- **StopHunt is undone.**  Let `s` be a reachable state in which loop `i`'s MAC is not in the hunt
-    list (StopHunt returned).  On every continuation without an accepted StartHunt for that MAC:
-    * the loop writes at most one more forged frame – and only if it had already passed its check
-      (`forgeBudget`);
-    * it writes at most one restoring request, and once it has, it is finished (`restoreBudget` of a
-      finished loop is 0, so nothing follows);
-    * as long as the handler is not closed the count is exact: restoring requests written plus
-      (1 if the loop has not finished yet) equals 1 – a loop that has finished has restored exactly once. -/
+/-- **StartHunt, StopHunt and Close wait for the frame in flight**: in every reachable state in which
+    a loop is between its lookup and its frame (forged announcement or restoring request) or
+    ProcessPacket between its lookup and the forged reply, StopHunt, Close, a valid StartHunt, every
+    loop's check and the request branch of ProcessPacket are not enabled – they take `arpMutex`,
+    which that thread holds. -/
+theorem calls_wait_for_frame (tr : List Event) (s : State) (os : List Out)
+    (hr : run {} tr = some (s, os))
+    (hp : (∃ i, (s.loops i).pc = .forge ∨ (s.loops i).pc = .restore) ∨ (∃ m, s.holder = some (.rx m))) :
+    (∀ mac ip, step s (.stopHunt mac ip) = none) ∧ step s .close = none ∧
+    (∀ mac, step s (.startHunt mac true) = none) ∧ (∀ j, step s (.check j) = none) ∧
+    (∀ e m r, step s (.rxRequest e m r) = none) := by
+  have hI := inv_run inv_init hr
+  have hh : s.holder ≠ none := by
+    rcases hp with ⟨i, hp | hp⟩ | ⟨m, hp⟩
+    · rw [(hI.forgeOK i hp).1]; simp
+    · rw [(hI.restoreOK i hp).1]; simp
+    · rw [hp]; simp
+  refine ⟨?_, ?_, ?_, ?_, ?_⟩
+  · intro mac ip; simp [step, free, hh]
+  · simp [step, free, hh]
+  · intro mac; simp [step, free, hh]
+  · intro j; simp [step, free, hh]
+  · intro e m r; simp [step, free, hh]
+
+/-- after an effective StopHunt of `mac`, as long as no StartHunt for `mac` is accepted, no output of
+    the machine is a forged packet (announcement or immediate reply) to `mac` -/
+def no_forged_after_stop_full : Prop :=
+  ∀ (pre post : List Event) (mac ip : Bytes) (s : State) (os : List Out),
+    run {} (pre ++ [.stopHunt mac ip] ++ post) = some (s, os) → NoRestart mac post →
+    forgedCount mac (os.drop (pre.length + 1)) = 0
+
+/-- the clause of the property: after the restoring packet for `mac` no further forged packet is
+    sent to it unless it is hunted again – for whichever event of the trace wrote a restoring request
+    to `mac` (any loop attacking that MAC, also a loop of an earlier hunt that survived a quick
+    StopHunt / StartHunt), and "hunted again" meaning a StartHunt accepted AFTER that packet -/
+def no_forged_after_restore_full : Prop :=
+  ∀ (pre post : List Event) (e : Event) (mac : Bytes) (s : State) (os : List Out),
+    run {} (pre ++ [e] ++ post) = some (s, os) → os[pre.length]? = some (.restoring mac) →
+    NoRestart mac post → forgedCount mac (os.drop (pre.length + 1)) = 0
+
+/-- **After StopHunt has returned no forged packet is written to that host** (until it is hunted
+    again).  Every forged frame is written inside the critical section whose lookup found the MAC in
+    the hunt list; StopHunt's own critical section comes after it or before it. -/
+theorem no_forged_after_stop : no_forged_after_stop_full := by
+  intro pre post mac ip s os hr hn
+  obtain ⟨s0, s1, o, os1, os2, r1, hs, r2, hd, _⟩ := run_split pre post _ s os hr
+  rw [hd]
+  have hI := inv_run inv_init r1
+  have hq : mac ∉ s1.hunt := stopHunt_removes pre s0 s1 os1 o mac r1 ip hs
+  exact quiet_run post mac s1 s os2 (inv_step hI hs) hq hn r2
+
+/-- **After the restoring packet no further forged packet is sent to the host unless it is hunted
+    again** – on every trace and schedule of the machine, whichever loop wrote the restoring request.
+    The restoring request is written inside the critical section whose lookup did not find the MAC
+    in the hunt list, a forged frame inside one whose lookup found it: a StartHunt for the MAC was
+    accepted in between. -/
+theorem no_forged_after_restore : no_forged_after_restore_full := by
+  intro pre post e mac s os hr ho hn
+  obtain ⟨s0, s1, o, os1, os2, r1, hs, r2, hd, hat⟩ := run_split pre post e s os hr
+  rw [hd]
+  rw [hat] at ho
+  cases ho
+  have hI := inv_run inv_init r1
+  -- only `restore i` of a loop attacking `mac` writes this output; its lookup found `mac` not hunted
+  have hq : mac ∉ s1.hunt := by
+    cases e with
+    | restore i =>
+      simp only [step] at hs
+      split at hs
+      · rename_i hp
+        cases hs
+        exact (hI.restoreOK i hp).2.1
+      · cases hs
+    | rxOther => simp only [step] at hs; cases hs
+    | rxProbe a b c d => simp only [step] at hs; split at hs <;> cases hs
+    | rxRequest _e a b =>
+      simp only [step] at hs
+      split at hs
+      · split at hs <;> cases hs
+      · cases hs
+    | reply a => simp only [step] at hs; split at hs <;> cases hs
+    | close => simp only [step] at hs; split at hs <;> cases hs
+    | stopHunt m _ip => simp only [step] at hs; split at hs <;> cases hs
+    | startHunt m v =>
+      simp only [step] at hs
+      split at hs
+      · cases hs
+      · split at hs
+        · cases hs
+        · split at hs <;> cases hs
+    | check j =>
+      simp only [step] at hs
+      split at hs
+      · split at hs
+        · cases hs
+        · split at hs <;> cases hs
+      · cases hs
+    | forge j => simp only [step] at hs; split at hs <;> cases hs
+    | wake j => simp only [step] at hs; split at hs <;> cases hs
+  exact quiet_run post mac s1 s os2 (inv_step hI hs) hq hn r2
+
+/-- **StopHunt is undone.**  Let `s` be a reachable state in which loop `i` is alive and its MAC is not
+    in the hunt list (StopHunt returned).  On every continuation without an accepted StartHunt for
+    that MAC the loop writes no forged frame, at most one restoring request, and – unless the
+    handler is closed – exactly one once it has finished; it finishes at its next check. -/
 theorem stop_undoes (tr1 tr2 : List Event) (s s2 : State) (os1 os2 : List Out)
-    (_h1 : run {} tr1 = some (s, os1)) (i : Nat) (hi : i < s.nloops) (hlive : (s.loops i).pc ≠ .done)
+    (h1 : run {} tr1 = some (s, os1)) (i : Nat) (hi : i < s.nloops) (hlive : (s.loops i).pc ≠ .done)
     (hstop : (s.loops i).mac ∉ s.hunt) (hn : NoRestart (s.loops i).mac tr2)
     (h2 : run s tr2 = some (s2, os2)) :
-    forgesOf i tr2 ≤ forgeBudget s i ∧ forgeBudget s i ≤ 1 ∧
-    restoresOf i tr2 ≤ 1 ∧
+    forgesOf i tr2 = 0 ∧ restoresOf i tr2 ≤ 1 ∧
     (s2.closed = false → restoresOf i tr2 + restoreBudget s2 i = 1) ∧
     (s2.closed = false → (s2.loops i).pc = .done → restoresOf i tr2 = 1) := by
-  obtain ⟨a, b, c⟩ := blocked_run tr2 s s2 os2 i hi (Or.inl hstop) hn h2
+  obtain ⟨a, b, c⟩ := stopped_run tr2 s s2 os2 i (inv_run inv_init h1) hi hstop hn h2
   have hrb : restoreBudget s i = 1 := by
     unfold restoreBudget; split
     · rename_i h; exact absurd h hlive
     · rfl
-  have hfb : forgeBudget s i ≤ 1 := by
-    unfold forgeBudget; split
-    · exact Nat.le_refl _
-    · split <;> omega
-    · omega
-  refine ⟨a, hfb, by omega, fun hc => by rw [← hrb]; exact c hc, ?_⟩
+  refine ⟨a, by omega, fun hc => by rw [← hrb]; exact c hc, ?_⟩
   intro hc hd
   have := c hc
   have h0 : restoreBudget s2 i = 0 := by unfold restoreBudget; rw [hd]
   omega
 
-/-- **Close stops all loops**: once `closed` is set, every loop writes at most the forged frame it had
-    already been cleared for (`forge` state), never passes its gate again, and writes no restoring
-    request after it has read `closed`. -/
-theorem close_stops_all (tr1 tr2 : List Event) (s s2 : State) (os1 os2 : List Out)
-    (_h1 : run {} tr1 = some (s, os1)) (hc : s.closed = true) (i : Nat) (hi : i < s.nloops)
-    (hn : NoRestart (s.loops i).mac tr2) (h2 : run s tr2 = some (s2, os2)) :
-    forgesOf i tr2 ≤ forgeBudget s i ∧ (forgeBudget s i = 1 → (s.loops i).pc = .forge) ∧
-    restoresOf i tr2 ≤ restoreBudget s i := by
-  obtain ⟨a, b, _⟩ := blocked_run tr2 s s2 os2 i hi (Or.inr hc) hn h2
-  refine ⟨a, ?_, by omega⟩
-  intro h1
-  unfold forgeBudget at h1
-  split at h1
-  · assumption
-  · simp [hc] at h1
-  · cases h1
+/-- the stopped loop ends at its next check: with the handler open it takes the mutex for the
+    restoring request, which is the only thing it can then do -/
+theorem stopped_loop_restores_at_next_check (tr : List Event) (s : State) (os : List Out)
+    (_hr : run {} tr = some (s, os)) (i : Nat) (hc : (s.loops i).pc = .check) (hf : s.holder = none)
+    (hstop : (s.loops i).mac ∉ s.hunt) (hopen : s.closed = false) :
+    ∃ s1, step s (.check i) = some (s1, .none) ∧ (s1.loops i).pc = .restore ∧
+      ∃ s2, step s1 (.restore i) = some (s2, .restoring (s.loops i).mac) ∧ (s2.loops i).pc = .done := by
+  obtain ⟨s1, hs1, h1, hm⟩ : ∃ s1, step s (.check i) = some (s1, .none) ∧ (s1.loops i).pc = .restore ∧
+      (s1.loops i).mac = (s.loops i).mac :=
+    ⟨{ setPc s i .restore with holder := some (.loop i) }, by simp [step, free, hc, hf, hstop, hopen],
+      by show ((setPc s i .restore).loops i).pc = .restore; simp,
+      by show ((setPc s i .restore).loops i).mac = (s.loops i).mac; simp⟩
+  refine ⟨s1, hs1, h1, { setPc s1 i .done with holder := none }, ?_, ?_⟩
+  · rw [← hm]; simp [step, h1]
+  · show ((setPc s1 i .done).loops i).pc = .done
+    simp
+
+/-- **Close stops all loops**: after Close no loop writes a forged announcement or a restoring
+    request any more, whatever is called or received afterwards. -/
+theorem close_stops_all (pre post : List Event) (s : State) (os : List Out)
+    (hr : run {} (pre ++ [.close] ++ post) = some (s, os)) :
+    ∀ o ∈ os.drop (pre.length + 1), loopFrame o = false := by
+  obtain ⟨s0, s1, o, os1, os2, r1, hs, r2, hd, _⟩ := run_split pre post _ s os hr
+  rw [hd]
+  have hI := inv_run inv_init r1
+  have hc : s1.closed = true := by
+    simp only [step] at hs
+    split at hs
+    · cases hs; rfl
+    · cases hs
+  exact closed_run post s1 s os2 (inv_step hI hs) hc r2
 
 /-! ### non-vacuity -/
 
@@ -261,20 +379,40 @@ def macA : Bytes := [2, 0xaa, 0, 0, 0, 1]
 def macB : Bytes := [2, 0xaa, 0, 0, 0, 2]
 
 /-- hunted host: forged frame each cycle; after StopHunt one restoring request, then the loop is done -/
-example : (run {} [.startHunt macA true, .check 0, .gate 0, .forge 0, .wake 0, .stopHunt macA [], .check 0, .gate 0,
-    .exitRead 0, .restore 0]).map (·.2) =
-    some [.startOk, .none, .none, .forged macA, .none, .none, .none, .none, .none, .restoring macA] := by decide
+example : (run {} [.startHunt macA true, .check 0, .forge 0, .wake 0, .stopHunt macA [], .check 0, .restore 0]).map (·.2) =
+    some [.startOk, .none, .forged macA, .none, .none, .none, .restoring macA] := by decide
 
 /-- nothing more after the restoring request -/
-example : run {} [.startHunt macA true, .stopHunt macA [], .check 0, .gate 0, .exitRead 0, .restore 0, .wake 0] = none := by
-  decide
-example : run {} [.startHunt macA true, .stopHunt macA [], .check 0, .gate 0, .exitRead 0, .restore 0, .forge 0] = none := by
-  decide
+example : run {} [.startHunt macA true, .stopHunt macA [], .check 0, .restore 0, .wake 0] = none := by decide
+example : run {} [.startHunt macA true, .stopHunt macA [], .check 0, .restore 0, .forge 0] = none := by decide
 
-/-- the in-flight forged frame: the loop passed check and gate before StopHunt -/
-example : (run {} [.startHunt macA true, .check 0, .gate 0, .stopHunt macA [], .forge 0, .wake 0, .check 0, .gate 0,
-    .exitRead 0, .restore 0]).map (·.2) =
-    some [.startOk, .none, .none, .none, .forged macA, .none, .none, .none, .none, .restoring macA] := by decide
+/-- `no_forged_after_restore` / `no_forged_after_stop` are not vacuous: a trace of the machine with
+    forged frames (announcement and reply) before StopHunt, the restoring request after it, more
+    events after that; the hypotheses hold -/
+example : (run {} ([.startHunt macA true, .check 0, .forge 0, .rxRequest macA macA true, .reply macA,
+      .stopHunt macA [], .wake 0, .check 0] ++ [.restore 0] ++ [.rxRequest macA macA true, .startHunt macB true, .check 1, .forge 1])).map (·.2) =
+    some [.startOk, .none, .forged macA, .none, .spoofReply macA, .none, .none, .none, .restoring macA,
+      .none, .startOk, .none, .forged macB] ∧
+    NoRestart macA [.rxRequest macA macA true, .startHunt macB true, .check 1, .forge 1] := by
+  refine ⟨by decide, ?_⟩
+  intro e he
+  simp at he
+  rcases he with rfl | rfl | rfl | rfl <;> decide
+
+/-- the former windows are not behaviours of the repaired code: between a lookup that found the MAC
+    and the forged frame, StopHunt cannot run – neither for the loop's announcement nor for the reply -/
+example : run {} [.startHunt macA true, .check 0, .stopHunt macA [], .forge 0] = none := by decide
+example : run {} [.startHunt macA true, .rxRequest macA macA true, .stopHunt macA [], .reply macA] = none := by decide
+
+/-- two loops for one MAC (StartHunt, StopHunt, StartHunt before the first loop's next check): both
+    attack while the MAC is hunted; after the final StopHunt each writes its restoring request and
+    neither forges after the first of them -/
+example : (run {} [.startHunt macA true, .check 0, .forge 0, .stopHunt macA [], .startHunt macA true, .check 1, .forge 1,
+    .wake 0, .check 0, .forge 0, .stopHunt macA [], .wake 1, .check 1, .restore 1, .wake 0, .check 0, .restore 0]).map (·.2) =
+    some [.startOk, .none, .forged macA, .none, .startOk, .none, .forged macA, .none, .none, .forged macA, .none,
+      .none, .none, .restoring macA, .none, .none, .restoring macA] := by decide
+example : run {} [.startHunt macA true, .check 0, .forge 0, .stopHunt macA [], .startHunt macA true, .check 1, .forge 1,
+    .wake 0, .check 0, .stopHunt macA [], .wake 1, .check 1, .restore 1, .forge 0] = none := by decide
 
 /-- immediate reply only for a hunted asker -/
 example : (run {} [.startHunt macA true, .rxRequest macA macA true, .reply macA, .rxRequest macB macB true]).map (·.2) =
@@ -292,7 +430,8 @@ example : (run {} [.startHunt macA true, .startHunt macB true, .stopHunt macB [1
     (fun p => p.1.hunt) = some [macA] := by decide
 
 /-- Close: no restoring request, the loop just ends -/
-example : (run {} [.startHunt macA true, .close, .check 0, .gate 0, .exitRead 0]).map
-    (fun p => (p.2, (p.1.loops 0).pc)) = some ([.startOk, .none, .none, .none, .none], .done) := by decide
+example : (run {} [.startHunt macA true, .close, .check 0]).map
+    (fun p => (p.2, (p.1.loops 0).pc)) = some ([.startOk, .none, .none], .done) := by decide
+example : run {} [.startHunt macA true, .close, .check 0, .restore 0] = none := by decide
 
 end PV.Props.C13
